@@ -80,6 +80,12 @@ namespace chaiscript {
         if (t_rhs == 0) {
           throw chaiscript::exception::arithmetic_error("divide by zero");
         }
+        using Result = decltype(t_lhs / t_rhs);
+        if constexpr (std::is_signed<Result>::value) {
+          if (static_cast<Result>(t_rhs) == static_cast<Result>(-1) && static_cast<Result>(t_lhs) == std::numeric_limits<Result>::min()) {
+            throw chaiscript::exception::arithmetic_error("integer overflow in division");
+          }
+        }
       }
 #endif
     }
